@@ -128,8 +128,8 @@ def mle_cells(tier, seed):
     rs = np.random.RandomState((seed * 17 + 3) % (2 ** 32))
     out = []
     for _ in range(chunks):
-        for fam in ('beta', 'gamma', 'student_t', 'student_t_heavy', 'loglaplace', 'truncnorm_onesided'):
-            out.append({'family': fam, 'K': K if fam != 'student_t_heavy' else K // 2, 'seed': int(rs.randint(0, 2 ** 31 - 1))})
+        for fam in ('beta', 'gamma', 'gamma_small_shape', 'student_t', 'student_t_heavy', 'loglaplace', 'truncnorm_onesided'):
+            out.append({'family': fam, 'K': K if fam not in ('student_t_heavy', 'gamma_small_shape') else K // 2, 'seed': int(rs.randint(0, 2 ** 31 - 1))})
     return out
 
 
@@ -145,6 +145,10 @@ def oracle_mle(case):
             c['a'], c['b'] = float(rs.uniform(0.5, 10)), float(rs.uniform(0.5, 10))
         elif fam == 'gamma':
             c['a'] = float(rs.uniform(0.5, 20))
+        elif fam == 'gamma_small_shape':
+            # pooled separately: over U(0.5, 20) the sub-range a < 2 is 8 % of the cases and disappears in the 80 % rule
+            c['family'] = 'gamma'
+            c['a'] = float(rs.uniform(0.5, 2.0))
         elif fam == 'student_t':
             c['a'] = float(rs.uniform(2, 30))
         elif fam == 'student_t_heavy':
@@ -189,11 +193,16 @@ def oracle_mle_pooled(case):
         a, b = list(info['tally'].values())[0]
         ok += a
         tot += b
-    p = vs.binom_pvalue_below(ok, tot, 0.8)
-    require(p >= 1e-12, '%s: %d of %d generated datasets are fitted within the bands (required 80%%; binomial p=%.3g)' % (case['key'], ok, tot, p), tag='pooled-rate')
+    rate = case.get('rate', 0.8)
+    p = vs.binom_pvalue_below(ok, tot, rate)
+    require(p >= 1e-12, '%s: %d of %d generated datasets are fitted within the bands (required %.0f%%; binomial p=%.3g)' % (case['key'], ok, tot, 100 * rate, p),
+            tag='pooled-rate')
     return {'nontrivial': True, 'classes': ['pooled-replay']}
 
 
+# The 80 % rule is the property's own quantifier for the families delegated to scipy's generic MLE optimiser; every
+# family cell (including the sub-range cells student_t_heavy and gamma_small_shape, which a uniform draw over the whole
+# shape range would dilute to a few percent of the cases) is tested against it and against nothing stricter.
 POOLED = [{'prefix': 'mle-recovery:', 'rate': 0.8, 'alpha': 1e-12, 'replay_sub': 'recovery_mle_80pct_pooled'}]
 
 
